@@ -99,6 +99,18 @@ def rule_handed_on(ctx, px, R):
                                 return False, f"{h.short} returns `{ast.unparse(rv)[:60]}`" + (f" ({why_})" if why_ else "")
                         return True, ""
             return False, f"`{ast.unparse(e)[:70]}` is not the given list, a copy of it, or that list with more appended"
+        if isinstance(e, (ast.List, ast.Tuple)):
+            # a partition: the members that satisfy a test and the members that do not, each in the given order (`[Chain(lines), *others]`)
+            full = pyfront.subst_locals(fn.node, e)
+            conds_ = set()
+            for c_ in ast.walk(full):
+                if isinstance(c_, (ast.ListComp, ast.GeneratorExp)) and len(c_.generators) == 1 and isinstance(c_.generators[0].target, ast.Name) \
+                        and isinstance(c_.elt, ast.Name) and c_.elt.id == c_.generators[0].target.id and len(c_.generators[0].ifs) == 1 \
+                        and preserves(fn, c_.generators[0].iter, param, depth + 1, seen)[0]:
+                    v_ = c_.generators[0].target.id
+                    conds_.add(ast.unparse(c_.generators[0].ifs[0]).replace(v_, "\x00"))
+            if any((f"not {c_}" in conds_) for c_ in conds_):
+                return True, ""
         if isinstance(e, ast.Constant) and e.value is None:
             return True, ""       # no list at all where none was given and nothing is added
         return False, f"`{ast.unparse(e)[:70]}` is not the given list, a copy of it, or that list with more appended"
